@@ -398,6 +398,33 @@ def run_slice(c):
 def norm_log(log):
     return list(log)
 
+def cache_dump(cache):
+    """dadi.Demes.cache as plain data (same as harness/props/c16_export.cache_dump)"""
+    out = []
+    for e in cache:
+        t = type(e).__name__
+        d = {'type': t, 'duration': (None if e.duration == float('inf') else float(e.duration)),
+             'deme_ids': None if e.deme_ids is None else list(e.deme_ids)}
+        if t == 'Initiation':
+            d['start_sizes'] = [float(x) for x in e.start_sizes]
+        elif t == 'IntegrationConst':
+            d['start_sizes'] = [float(x) for x in e.start_sizes]; d['mig'] = [float(x) for x in e.mig]
+        elif t == 'IntegrationNonConst':
+            d['start_sizes'] = [float(x) for x in e.start_sizes]; d['end_sizes'] = [float(x) for x in e.end_sizes]
+            d['mig'] = [float(x) for x in e.mig]; d['linear'] = [bool(x) for x in e.linear]
+        elif t == 'Split':
+            d['proportions'] = [float(x) for x in e.proportions]
+        elif t == 'Remove':
+            d['removed'] = int(e.removed)
+        elif t == 'Reorder':
+            d['neworder'] = [int(x) for x in e.neworder]
+        elif t == 'Pulse':
+            d['sources'] = [int(x) for x in e.sources]; d['dest'] = int(e.dest); d['proportions'] = [float(x) for x in e.proportions]
+        else:
+            d['unknown'] = True
+        out.append(d)
+    return out
+
 def run_export(c):
     rec = {}
     if c.get('ops_norm') is not None:
@@ -417,6 +444,11 @@ def run_export(c):
     rec['cache'] = [type(e).__name__ for e in cache]
     g = dadi.Demes.output(Nref=c.get('Nref'), generation_time=c.get('gen_time'))
     rec['graph'] = graph_dict(g)
+    # the event log as output saw it (names filled in), for the exporter model (Model/DemesExportModel.v)
+    try:
+        rec['cache_full'] = cache_dump(cache)
+    except Exception as e:
+        rec['cache_full_error'] = type(e).__name__ + ': ' + str(e)[:200]
     # names of the demes alive at the end, in the order of the final event
     final_ids = list(cache[-1].deme_ids) if c.get('ops') is not None else list(c['sampled'])
     rec['final_ids'] = final_ids
@@ -424,6 +456,9 @@ def run_export(c):
     fs1 = dadi.Spectrum.from_demes(g, final_ids, list(c['ns']), pts=[c['pts']], Ne=c.get('Nref'))
     rec['fs1'] = fs_out(fs1)
     rec['calls1'] = list(LOG)
+    if ORACLE:
+        # what `demes` reported for the exported graph (in generations) during the re-import
+        rec['events1'] = events_dict(ORACLE[-1][1])
     return rec
 
 def main():
